@@ -120,6 +120,12 @@ WILD = ['', '~', '[]', '{}', '1', 'nope', '../..', '/dev/null', 'é', '- a', 'a:
 LIST_WILD = ['[]', '[]', '[[]]', "['']", '[~]', '[1]', '[nope, rules]', '[rules, rules]', "['../..']", '[{}]', '[{testDir: nope}]', '[{testDir: tests, snapshotDir: ""}]']
 
 
+GLOB_WILD = ["{js: ['src/[a-']}", "{js: ['**/*.{a']}", "{js: ['***']}", "{js: ['']}", "{js: [1]}", "{py: ['a/**/b', '[!']}", "{js: []}", "{js: ~}", "{rust: ['*.js'], js: ['*.rs']}", "{js: ['\\\\']}"] + WILD
+RULE_EXTRAS = ['', '', 'severity: off\n', 'severity: off\nfiles: ["src/**"]\n', 'severity: off\nignores: ["nothing/**"]\n', 'files: ["src/[a-"]\n', 'ignores: [""]\n',
+               'severity: hint\nfiles: []\n', 'files: ["**/*.js"]\nignores: ["**/a.js"]\n', 'severity: nope\n', 'files: 1\n', 'url: ~\nnote: ""\nmetadata: {a: [1, {b: ~}]}\n',
+               'labels: {A: {style: primary, message: "m $A"}}\n', 'labels: {ZZ: {style: secondary}}\n', 'labels: {A: {style: nope}}\n']
+
+
 def project_variants(rng):
     """(files, argv, description) for project-config and test-file inputs"""
     good_rule = 'id: r1\nlanguage: JavaScript\nrule: {pattern: "foo($A, $B)"}\nfix: "bar($A)"\n'
@@ -143,7 +149,8 @@ def project_variants(rng):
         lines = []
         for k, g in good.items():
             if k == victim:
-                lines.append(f'{k}: {rng.choice(LIST_WILD if k.endswith(("Dirs", "Configs", "Injections")) else WILD)}')
+                pool = LIST_WILD if k.endswith(("Dirs", "Configs", "Injections")) else GLOB_WILD if k == 'languageGlobs' else WILD
+                lines.append(f'{k}: {rng.choice(pool)}')
             elif k in ('ruleDirs', 'testConfigs') or rng.random() < 0.5:
                 lines.append(f'{k}: {g}')
         rng.shuffle(lines)
@@ -157,7 +164,7 @@ def project_variants(rng):
     files = dict(SRC)
     files = {'src/' + k: v for k, v in files.items()}
     files['sgconfig.yml'] = rng.choice(cfgs)
-    files['rules/r1.yml'] = rng.choice([good_rule, good_rule, 'id: r1\nlanguage: JavaScript\nrule: {kind: nope}\n', rng.choice(WILD)])
+    files['rules/r1.yml'] = rng.choice([good_rule, good_rule, good_rule + rng.choice(RULE_EXTRAS), good_rule + rng.choice(RULE_EXTRAS), 'id: r1\nlanguage: JavaScript\nrule: {kind: nope}\n', rng.choice(WILD)])
     files['tests/r1-test.yml'] = rng.choice(tests)
     files['utils/u1.yml'] = rng.choice(utils)
     files['snaps/r1-snapshot.yml'] = rng.choice(snaps)
